@@ -187,9 +187,9 @@ theorem wait_state_not_early (env : Env) (fuel : Nat) (states : Json) (name : St
     (ht : waitTarget env state input ctx st.clock = .ok target)
     (ho : applyPath input ctx (pathArg state "OutputPath") = .ok out) :
     runState env (fuel + 1) states name state data ctx retries st =
-      leave env fuel states name state data out ctx retries (st.waitUntil target) ∧
-    (st.waitUntil target).clock = rmax st.clock target ∧
-    target ≤ (st.waitUntil target).clock ∧ st.clock ≤ (st.waitUntil target).clock := by
+      leave env fuel states name state data out ctx retries (st.closeKeep.waitUntil target) ∧
+    (st.closeKeep.waitUntil target).clock = rmax st.clock target ∧
+    target ≤ (st.closeKeep.waitUntil target).clock ∧ st.clock ≤ (st.closeKeep.waitUntil target).clock := by
   have h1 : (S "Wait" = S "Pass") = False := by decide
   have h2 : (S "Wait" = S "Succeed") = False := by decide
   have h3 : (S "Wait" = S "Fail") = False := by decide
@@ -233,11 +233,11 @@ theorem task_timeout_exact (env : Env) (fuel : Nat) (states : Json) (name fn : S
       ¬ st.clock + d < st.clock + (n : Rat) * 1000) :
     runState env (fuel + 1) states name state data ctx retries st =
       handleErr env fuel states name state data ctx retries (S "States.Timeout") (S "m")
-        (st.taskCall (bump st.counts (fn, params)).2 ((fldStr state "Resource").getD []) params .lambdaTimedOut
+        ((st.closeKeep.request true).taskCall (bump st.counts (fn, params)).2 ((fldStr state "Resource").getD []) params .lambdaTimedOut
           (st.clock + (n : Rat) * 1000)) ∧
-    (st.taskCall (bump st.counts (fn, params)).2 ((fldStr state "Resource").getD []) params .lambdaTimedOut
+    ((st.closeKeep.request true).taskCall (bump st.counts (fn, params)).2 ((fldStr state "Resource").getD []) params .lambdaTimedOut
         (st.clock + (n : Rat) * 1000)).times = (st.clock + (n : Rat) * 1000) :: st.clock :: st.times ∧
-    (st.taskCall (bump st.counts (fn, params)).2 ((fldStr state "Resource").getD []) params .lambdaTimedOut
+    ((st.closeKeep.request true).taskCall (bump st.counts (fn, params)).2 ((fldStr state "Resource").getD []) params .lambdaTimedOut
         (st.clock + (n : Rat) * 1000)).clock = st.clock + (n : Rat) * 1000 := by
   have h1 : (S "Task" = S "Pass") = False := by decide
   have h2 : (S "Task" = S "Succeed") = False := by decide
@@ -270,8 +270,9 @@ theorem retry_delay_exact (env : Env) (fuel : Nat) (states : Json) (name : Str) 
     (h : decideError ((listOf (fld state "Retry")).map retrierOf) ((listOf (fld state "Catch")).map catcherOf) e retries = .retry d k)
     (hd : 0 ≤ d * 1000) :
     handleErr env (fuel + 1) states name state data ctx retries e msg st =
-      runFrom env fuel states name data ctx k (st.after d) ∧
-    (st.after d).clock = st.clock + d * 1000 ∧ (st.after d).log = st.log := by
+      runFrom env fuel states name data ctx k (st.retryAfter name d) ∧
+    (st.retryAfter name d).clock = st.clock + d * 1000 ∧
+    (st.retryAfter name d).log = st.log := by
   refine ⟨by simp [handleErr, h], ?_, rfl⟩
   simp [St.after, St.waitUntil, rmax_of_le (add_nonneg_ge _ _ hd)]
 
@@ -281,12 +282,12 @@ instant the fan-out is at) -/
 theorem join_time_is_max (env : Env) (fuel : Nat) (b : Json) (bs : List Json) (params ctx : Json) (st s1 s2 : St)
     (start : Str) (states v : Json) (vs : List Json)
     (hs : fldStr b "StartAt" = some start) (hst : fld b "States" = some states)
-    (hr : runFrom env fuel states start params ctx 0 st = (.done v, s1))
-    (hrest : runBranches env fuel bs params ctx (s1.at st.clock) = (.ok vs, s2)) :
+    (hr : runFrom env fuel states start params ctx 0 st.startBranch = (.done v, s1))
+    (hrest : runBranches env fuel bs params ctx ((s1.endBranch false).at st.clock) = (.ok vs, s2)) :
     runBranches env (fuel + 1) (b :: bs) params ctx st = (.ok (v :: vs), s2.at (rmax s1.clock s2.clock)) ∧
     s1.clock ≤ rmax s1.clock s2.clock ∧ s2.clock ≤ rmax s1.clock s2.clock ∧ st.clock ≤ s1.clock := by
-  refine ⟨by simp [runBranches, hs, hst, hr, hrest, fanCombine], le_rmax_left _ _, le_rmax_right _ _, ?_⟩
-  have := ((growsAll env fuel).runFrom states start params ctx 0 st).clock_le
+  refine ⟨by simp [runBranches, hs, hst, hr, hrest, fanCombine, isFailed], le_rmax_left _ _, le_rmax_right _ _, ?_⟩
+  have := ((growsAll env fuel).runFrom states start params ctx 0 st.startBranch).clock_le
   rw [hr] at this
   exact this
 
